@@ -345,3 +345,60 @@ package segment
 //@   ensures[C02.commitidx] result == nil ==> w.commitIdx == ite(len(av(w.offsets)) > 0, w.info.BaseIndex + uint64(len(av(w.offsets))) - 1, 0)
 //@   ensures[C01.recovery-readonly] w.wf.dirty == old(w.wf.dirty) && unchanged(w.wf.data, 0, int(w.wf.size))
 //@   ensures result == nil ==> WInv(w)
+
+// ---------------------------------------------------------------------------
+// reader.go
+// ---------------------------------------------------------------------------
+
+//@ interface tailWriter.OffsetForFrame
+//@   ensures result1 == nil || result1 == types.ErrNotFound
+
+//@ func (*Reader).makeBuffer
+//@   inline
+
+//@ func (*Reader).readFrame
+//@   props C05 C11 C15
+//@   requires r.rf != nil
+//@   alloc_bound[C11.readframe-alloc] MaxEntrySize
+//@   ensures[C15.readframe-ok] result2 == nil ==> result1 != nil && len(result1.Bs) == int(result0.len)
+//@   ensures[C15.readframe-payload] result2 == nil && offset <= 0xfffffff0 ==> eqbytes(result1.Bs, 0, r.rf.data, int(offset) + 8, int(result0.len))
+//@   ensures[C15.readframe-header] result2 == nil ==> (result0.typ == FrameEntry || result0.typ == FrameIndex) ==> result0.typ == r.rf.data[int(offset)] && result0.len == LE32(r.rf.data, int(offset) + 4)
+//@   ensures[C11.readframe-bounded] result2 == nil ==> result0.len <= MaxEntrySize
+//@   ensures[C11.readframe-in-file] result2 == nil && offset <= 0xfffffff0 ==> int(offset) + 8 + int(result0.len) <= r.rf.size
+
+//@ func (*Reader).findFrameOffset
+//@   props C05 C11
+//@   requires r.rf != nil
+//@   ensures[C05.sealed-notfound] r.tail == nil && r.info.IndexStart != 0 && (idx < r.info.MinIndex || (r.info.MaxIndex > 0 && idx > r.info.MaxIndex)) ==> result1 == types.ErrNotFound
+//@   ensures[C05.sealed-offset] r.tail == nil && result1 == nil ==> result0 == LE32(r.rf.data, int(r.info.IndexStart + (idx - r.info.BaseIndex) * 4))
+
+//@ func (*Reader).GetLog
+//@   props C05 C11
+//@   requires r.rf != nil
+//@   ensures result1 == nil ==> result0 != nil
+
+// ---------------------------------------------------------------------------
+// filer.go
+// ---------------------------------------------------------------------------
+
+//@ -- README / property C09: segment files are named <BaseIndex %020d>-<ID %016x>.wal
+//@ func FileName
+//@   props C09
+//@   ensures[C09.filename] result == sprintf("%020d-%016x.wal", i.BaseIndex, i.ID)
+
+//@ func (*Filer).Delete
+//@   props C09 C13
+//@   requires f.vfs != nil
+//@   ensures true
+
+//@ func openReader
+//@   inline
+
+//@ func (*Filer).Open
+//@   props C11
+//@   requires f.vfs != nil
+//@   assigns g_open
+//@   ensures[C11.sealed-header] result1 == nil ==> result0 != nil && result0.rf.size >= 32 && LE32(result0.rf.data, 0) == 0x58eb6b0d
+//@      && LE64(result0.rf.data, 8) == info.BaseIndex && LE64(result0.rf.data, 16) == info.ID && LE64(result0.rf.data, 24) == info.Codec
+//@   ensures[C11.filer-open-holds-one] result1 == nil ==> g_open == old(g_open) + 1
+//@   ensures[C11.filer-open-releases] result1 != nil ==> g_open == old(g_open)
